@@ -97,24 +97,64 @@ func RunE3(env *Env, job *E3Job) *E3Res {
 			return
 		}
 		defer st.Close()
-		if err := st.Init(); err != nil {
-			res.Harness = "Initialize: " + err.Error()
-			return
-		}
 		n := len(job.Hist)
+		o := job.Hist[n-1]
+		if o.K != "init-first" {
+			if err := st.Init(); err != nil {
+				res.Harness = "Initialize: " + err.Error()
+				return
+			}
+		}
 		for i := 0; i < n-1; i++ {
 			o := job.Hist[i]
 			ph.Name = fmt.Sprintf("prefix[%d] %s", i, o)
 			_, _ = Guard(func() error { return ops.ExecImpl(st, o) })
 			vsync.Quiesce()
 		}
-		o := job.Hist[n-1]
-		shape = rawShape(st, o)
-		hshape = handlesShape(st)
+		old := st
+		isInit := false
+		switch o.K {
+		case "init-first", "init-again":
+			// Initialize itself is the call: on the empty drive, or once more on the running instance
+			isInit = true
+		case "open-existing", "open-noindex":
+			// Initialize of a fresh instance over the tape written so far, with the index as it is / with an empty index
+			// (the latter replays the tape)
+			isInit = true
+			var ns *rig.Stack
+			var err error
+			if o.K == "open-existing" {
+				ns, err = Reopen(env, st.Cfg, st)
+			} else {
+				dir := env.TempDir()
+				if err = CopyFile(st.Drive, dir+"/drive.tar"); err == nil {
+					cfg := st.Cfg
+					cfg.Overwrite = false
+					ns, err = rig.NewStack(dir, cfg, env.Keys)
+				}
+			}
+			if err != nil {
+				res.Harness = o.K + ": " + err.Error()
+				return
+			}
+			defer ns.Close()
+			st = ns
+		}
+		if isInit {
+			shape = o.K
+		} else {
+			shape = rawShape(st, o)
+		}
+		hshape = handlesShape(old)
 		st.ResetCounts()
 		st.Armed = job.Fault
 		ph.Name = "call"
-		err, pan := Guard(func() error { return ops.ExecImpl(st, o) })
+		err, pan := Guard(func() error {
+			if isInit {
+				return st.Init()
+			}
+			return ops.ExecImpl(st, o)
+		})
 		st.Armed = nil
 		res.Fired = st.Fired
 		res.Counts = st.Counts
@@ -141,7 +181,7 @@ func RunE3(env *Env, job *E3Job) *E3Res {
 			viol(fmt.Sprintf("C10|panic-in-probe|after=%s|seam=%s|%s", shape, seam, NormErr(fmt.Errorf("%s", strings.SplitN(pan, "\n", 2)[0]))), hist+"\nthe probe after the call panicked: "+pan)
 		}
 		ph.Name = "cleanup"
-		for _, h := range st.Handles {
+		for _, h := range old.Handles {
 			_, _ = Guard(func() error { return h.F.Close() })
 		}
 	})
